@@ -28,6 +28,9 @@ FILTERS: list[tuple[str, list[str] | None, list[str] | None]] = [
     ("ga[]+af[1/1/1]", [], ["1/1/1"]),
     ("ga[1/1/1,1/1/1]+af[1/1/0-5]", ["1/1/1", "1/1/1"], ["1/1/0-5"]),
     ("af[1-2/1/1,3]", None, ["1-2/1/1,3"]),
+    # the other spellings of the internal prefix that InternalGroupAddress accepts (i, i- or i_, blanks around the name)
+    ("af[i_t*]", None, ["i_t*"]),
+    ("af[iother ]+ga[i_test]", ["i_test"], ["iother "]),
 ]
 DESTS = ["1/1/1", "1/2/1", "2/1/1", "3/0/0", "1/1/3", "i-test", "i-other", "i-t"]
 # (telegrams to individual addresses never enter this queue: CEMIHandler hands them to Management, and
@@ -53,7 +56,7 @@ def telegram_kinds() -> list[tuple[str, str, str]]:
 def mk_dest(d: str) -> Any:
     if d.startswith("ia:"):
         return IndividualAddress(d[3:])
-    if d.startswith("i-"):
+    if d[:1] in ("i", "I"):
         return InternalGroupAddress(d)
     return GroupAddress(d)
 
@@ -65,11 +68,16 @@ def ref_filter_matches(fi: int, dest: str) -> bool:
         return True
     if dest.startswith("ia:"):
         return False
-    if dest in (gas or []):
+    def canon(x: str) -> str:
+        if x[:1] in ("i", "I"):
+            return "i-" + x[2 if x[1:2] in ("-", "_") else 1:].strip()
+        return x
+
+    if dest in [canon(g) for g in (gas or [])]:
         return True
     for pat in afs or []:
-        if pat.startswith("i"):
-            if dest.startswith("i-") and R.glob_matches(pat, dest):
+        if pat[:1] in ("i", "I"):
+            if dest.startswith("i-") and R.glob_matches(canon(pat), dest):
                 return True
         elif not dest.startswith("i-"):
             a, b, c = (int(x) for x in dest.split("/"))
